@@ -90,15 +90,17 @@ class Context:
 
     # pylint: disable=too-many-arguments,too-many-positional-arguments
     def run(self, factory, ps_hint, jobid, runid, target, timing) -> [str]:
-        task = (
-            factory(dawgie.util.task_name(factory), ps_hint, runid, target)
-            if runid and target
-            else (
-                factory(dawgie.util.task_name(factory), ps_hint, runid)
-                if runid
-                else factory(dawgie.util.task_name(factory), ps_hint, target)
+        # which arguments a factory takes follows from its kind, not from
+        # the values: run ID 0 (work triggered by a regression) is a run ID
+        kind = factory.__name__
+        if kind == dawgie.Factories.task.name:
+            task = factory(
+                dawgie.util.task_name(factory), ps_hint, runid, target
             )
-        )
+        elif kind == dawgie.Factories.analysis.name:
+            task = factory(dawgie.util.task_name(factory), ps_hint, runid)
+        else:
+            task = factory(dawgie.util.task_name(factory), ps_hint, target)
         setattr(task, 'abort', self.abort)
         dawgie.pl.version.record(task, only=jobid.split('.')[1])
         timing['started'] = datetime.datetime.now(datetime.UTC)
